@@ -176,7 +176,52 @@ func c07Compare(what string, pat psi.PAT, m *ref.PAT, probe []int) *hx.Failure {
 			return hx.Failf("ispmt", "%s: IsPMT(packet with PID %d) = (%v, %v), want %v", what, p, is, err, values[p])
 		}
 	}
+	// IsPMT takes the PAT interface and is defined on its program map: a PAT view that hides one program
+	// (an application's filter around the library's object) classifies by the map it presents
+	if len(want) > 0 {
+		drop := -1
+		for pn := range want {
+			if drop < 0 || pn < drop {
+				drop = pn
+			}
+		}
+		view := c07FilteredPAT{PAT: pat, drop: drop}
+		vis := map[int]bool{}
+		for pn, pid := range want {
+			if pn != drop {
+				vis[pid] = true
+			}
+		}
+		vp := pids
+		if len(vp) > 10 {
+			vp = vp[:10]
+		}
+		vp = append(append([]int{}, vp...), want[drop])
+		for _, p := range vp {
+			pk := packet.Create(p, packet.WithHasPayloadFlag)
+			is, err := psi.IsPMT(pk, view)
+			if err != nil || is != vis[p] {
+				return hx.Failf("ispmt-view", "%s: IsPMT(packet with PID %d, PAT view hiding program %d) = (%v, %v), want %v (the view's map: %v)", what, p, drop, is, err, vis[p], view.ProgramMap())
+			}
+		}
+	}
 	return nil
+}
+
+// c07FilteredPAT is a PAT implementation that wraps the library's object and hides one program.
+type c07FilteredPAT struct {
+	psi.PAT
+	drop int
+}
+
+func (v c07FilteredPAT) ProgramMap() map[int]int {
+	m := map[int]int{}
+	for pn, pid := range v.PAT.ProgramMap() {
+		if pn != v.drop {
+			m[pn] = pid
+		}
+	}
+	return m
 }
 
 func checkC07(c CaseC07, x *hx.Ctx) *hx.Failure {
@@ -285,7 +330,7 @@ func checkC07(c CaseC07, x *hx.Ctx) *hx.Failure {
 var propC07 = hx.Register(hx.Prop[CaseC07]{ID: "C07", Gen: genC07, Check: checkC07})
 
 func c07Rule() {
-	hx.Rec("C07").SetRule("cases: a reference-model PAT with 0..253 entries (payload carrier) or 0..42 (packet and stream carriers), distinct program numbers, with probability 1/4 a network entry (program 0) at a drawn position, PIDs biased to > 255 and 0x1FFF, arbitrary transport_stream_id/version, pointer_field 0 (three cases in four) or up to what the carrier allows; carried as payload bytes (optional trailing stuffing), as a 188-byte packet (payload-side padding or adaptation-field stuffing), or in a stream after 0..5 packets of other PIDs and before 0..2 more, optionally followed by a second, different PID-0 packet (table update or another section_number; section_number/last_section_number/current_next drawn freely). Oracle: the model (entry count, exact program map, single-program accessor, IsPMT for map values/neighbours/drawn PIDs, nil PAT, not-found on streams without a PID-0 packet incl. a truncated last packet). Enumerated: every entry count 0..253 (payload) and 0..42 (packet, packet-af, stream) with and without a network entry. Non-trivial: entry count not in {1,2}, or a network entry, or a PID > 255, or a non-zero stream offset.",
+	hx.Rec("C07").SetRule("cases: a reference-model PAT with 0..253 entries (payload carrier) or 0..42 (packet and stream carriers), distinct program numbers, with probability 1/4 a network entry (program 0) at a drawn position, PIDs biased to > 255 and 0x1FFF, arbitrary transport_stream_id/version, pointer_field 0 (three cases in four) or up to what the carrier allows; carried as payload bytes (optional trailing stuffing), as a 188-byte packet (payload-side padding or adaptation-field stuffing), or in a stream after 0..5 packets of other PIDs and before 0..2 more, optionally followed by a second, different PID-0 packet (table update or another section_number; section_number/last_section_number/current_next drawn freely). Oracle: the model (entry count, exact program map, single-program accessor, IsPMT for map values/neighbours/drawn PIDs (also through a PAT view that hides one program), nil PAT, not-found on streams without a PID-0 packet incl. a truncated last packet). Enumerated: every entry count 0..253 (payload) and 0..42 (packet, packet-af, stream) with and without a network entry. Non-trivial: entry count not in {1,2}, or a network entry, or a PID > 255, or a non-zero stream offset.",
 		"distinct program numbers")
 }
 
